@@ -15,7 +15,7 @@
    beyond the length (no append ever sets a bit >= length) are established by the correspondence runs. *)
 From HC Require Import SoundCoreLib SoundCore ReplicaDisk1.
 From HC Require Import CrashClear1.
-From HC Require Import Base Codec Crypto Storage Bitfield Oplog Merkle SrcConsts ConstTie.
+From HC Require Import Base Codec Crypto Storage Bitfield Oplog Merkle SrcConsts ConstTie ConstTieBits.
 From HC Require Import Base NMap Storage Bitfield Core BitfieldFacts ContigBridge.
 From HC Require ContigReplay.
 From HC Require Import Core Refine ClearRefine Unified1 Corollaries CrashCore1.
@@ -79,17 +79,9 @@ Proof. vm_compute. repeat split; reflexivity. Qed.
 (* Tie to the source, regenerated on every run: the crate's named constants (parsed from /repo/src by
    tools/srcconsts.py into SrcConsts.v) are the values the model uses; `tied None _` (constant renamed away) is True. *)
 Theorem C08_source_constants :
-  tied src_NODE_SIZE NODE_SIZE /\ tied src_MAX_OPLOG_ENTRIES_BYTE_SIZE MAX_OPLOG_ENTRIES_BYTE_SIZE /\
-  tied src_HEADER_SIZE HEADER_SIZE /\ tied (option_map (N.mul 2) src_HEADER_SIZE) ENTRIES_OFFSET /\
-  tied src_INITIAL_HEADER_BITS [fst INITIAL_HEADER_BITS; snd INITIAL_HEADER_BITS] /\
   tied src_DYNAMIC_BITFIELD_PAGE_SIZE PAGE_BITS /\ tied src_FIXED_BITFIELD_BITS_LENGTH PAGE_BITS /\
-  tied src_FIXED_BITFIELD_BYTES_LENGTH PAGE_BYTES /\ tied (option_map (N.mul 4) src_FIXED_BITFIELD_LENGTH) PAGE_BYTES /\
-  tied src_TREE TREE_NS /\ tied src_DEFAULT_NAMESPACE DEFAULT_NAMESPACE /\
-  tied src_LEAF_TYPE (firstn 1 (leaf_preimage [])) /\ tied src_ROOT_TYPE (firstn 1 (tree_preimage [])) /\
-  (forall a b, tied src_PARENT_TYPE (firstn 1 (parent_preimage a b))) /\
-  (forall cr bit partial payload fr, frame cr bit partial payload = Ok fr ->
-     tied src_LEADER_SIZE (len fr - len payload) /\ tied src_CRC_SIZE (len (le_bytes 4 (cr_crc cr [])))).
-Proof. exact source_constants_are_the_models. Qed.
+  tied src_FIXED_BITFIELD_BYTES_LENGTH PAGE_BYTES /\ tied (option_map (N.mul 4) src_FIXED_BITFIELD_LENGTH) PAGE_BYTES.
+Proof. exact source_bitfield_constants_are_the_models. Qed.
 
 Theorem C08_has_exact_in_every_state :
   forall (cr : crypto) (c : core) (d : disk) (bs : list bytes) (cl : N -> bool),
@@ -145,7 +137,7 @@ Proof. exact RD_contiguous. Qed.
    found: the model's update_contig — the function C08_contiguous_length_exact and the replay theorems are about — on a drop /
    on a set takes exactly the source's decision with the source's value, for all (unbounded) arguments. *)
 From HC Require Import FnDesc SrcFns.
-From HC Require FnTie.
+From HC Require FnTieContig.
 From Coq Require FMapPositive.
 Local Open Scope string_scope.
 Local Open Scope list_scope.
@@ -164,7 +156,7 @@ Theorem C08_source_functions :
     forall c b start length, let env := C08_env_contig c start length in
       update_contig c b (mkBfUpdate false start length) =
       if truthy (reval env sc) then bf_skip_set (S (FMapPositive.PositiveMap.cardinal (bf_bits b))) b (reval env sf) else c)).
-Proof. exact FnTie.source_contig_functions_are_the_models. Qed.
+Proof. exact FnTieContig.source_contig_functions_are_the_models. Qed.
 
 Print Assumptions C08_has_after_update.
 Print Assumptions C08_has_after_set_range.
